@@ -323,7 +323,9 @@ pub fn run(ctx: &Ctx) -> ! {
         "catch_unwind around compile+render and resolve in the worker; aborts are seen by the driver as a dead worker".into(),
         "overflow checks are enabled in the simulator build (as in the debug builds the test-suite uses)".into(),
     ];
-    let verdict = rep.finish(ctx);
+    let mut verdict = rep.finish(ctx);
+    // a worker that could not run (spawn failure, wall-clock limit, garbled output) is a harness error, not a pass
+    verdict.harness_errors += ev.worker_errors as u32;
     ev.write(ctx, "fault_enumeration", verdict.violations, &verdict.known_seen);
     exit_with(&verdict)
 }
